@@ -60,8 +60,8 @@ def plan(pid, tier):
         "C03": [job("C03", "race", timeout=1500, parts=8), job("GATED", "race", arg="C03", timeout=1500, parts=4), job("C03D", "race", timeout=900, parts=2)],
         "C04": [job("C04", "race", timeout=1500, parts=8), job("GATED", "race", arg="C04", timeout=1500, parts=4), job("C04K", "race", timeout=600), job("C04R", "race", timeout=600)],
         "C13": [job("C13", "race", timeout=1500, parts=8), job("GATED", "race", arg="C13", timeout=1500, parts=4)],
-        "C17": [job("C17", "race", timeout=1500, parts=8), job("GATED", "race", arg="C17", timeout=1500, parts=4)],
-        "C05": [job("C05X", "race", timeout=1500, parts=8), job("GATED", "race", arg="C05", timeout=1500, parts=4), job("C05S", "race", timeout=1500, parts=6)],
+        "C17": [job("C17", "race", timeout=1500, parts=8), job("GATED", "race", arg="C17", timeout=1500, parts=4), job("C14", "race", arg="C17", timeout=900, parts=1)],
+        "C05": [job("C05X", "race", timeout=1500, parts=8), job("GATED", "race", arg="C05", timeout=1500, parts=4), job("C05S", "race", timeout=1500, parts=6), job("C05C", "race", timeout=600)],
         "C06": [job("GATED", "race", arg="C06", timeout=1500, parts=8), job("C14", "race", arg="C06", timeout=1500, parts=2)],
         "C14": [job("C14", "race", timeout=1500, parts=4)],
         "C15": [job("GATED", "race", arg="C15", timeout=1500, parts=8), job("C15S", "race", timeout=1500, parts=4), job("C15D", "race", timeout=900, parts=2), job("C14", "race", arg="C15", timeout=900, parts=1)],
@@ -69,7 +69,7 @@ def plan(pid, tier):
         "C08": [job("C08", "race", timeout=1500, parts=8)] + ([job("C08", "race", timeout=1500, parts=4, procs=p) for p in (1, 2, 4)] if T else []),
         "C09": [job("C09", "race", timeout=1500, parts=8)],
         "C10": [job("C10", "ptr", timeout=1500, parts=6)] + ([job("C10", "asan", timeout=1500, parts=6)] if T else []),
-        "C11": [job("C11", "ptr", timeout=1500, parts=8)] + ([job("C11", "asan", timeout=1500, parts=4)] if T else []),
+        "C11": [job("C11", "ptr", timeout=1500, parts=8)] + ([job("C11", "asan", arg="asan", timeout=1500, parts=4)] if T else []),
         "C12": [job("C12", "race", timeout=1500, parts=6), job("C12", "ptr", arg="bulk", timeout=1500, parts=6)],
         "C16": [job("C16", "ptr", timeout=1500, parts=6)],
         "C18": [job("C18", "ptr", timeout=1800, parts=8 if T else 2)],
